@@ -583,3 +583,10 @@ Definition keyed_request (api : Z) (key : name) : request_kind :=
   | CTxn => RTxn api key
   | _ => ROther api
   end.
+
+(* ------------------------------------------------------------------ *)
+(* protocol/produce/produce.go Prepare(apiVersion), called by protocol.Conn.RoundTrip with the
+   version negotiated for the connection: the record format the request is encoded with when
+   the program left RecordSet.Version to the library (message sets, magic 1, before Produce v3;
+   record batches, magic 2, from v3 on) *)
+Definition produce_record_version (api_version : Z) : Z := if api_version <? 3 then 1 else 2.
